@@ -287,14 +287,14 @@ def corpus(names, workdir):
         if b in names:
             for h in (HYPS if "%(hyp)s" in tpl else [""]):
                 cands.append(("generated/" + (h + "_" if h else "") + fname, tpl % {"lib": libpath(b), "hyp": h}))
-    # at most 40 candidates per (directory, behaviour) class, then the tree's mtest decides which ones run
+    # at most 10 candidates per (directory, behaviour) class, then the tree's mtest decides which ones run
     rnd = random.Random(20240)
     rnd.shuffle(cands)
     per = {}
     sel = []
     for rel, t in cands:
         g = ("ptest" if rel.endswith(".ptest") else os.path.basename(os.path.dirname(rel))) + ":" + _BEHAVIOUR_RX.search(t).group(1)
-        if per.get(g, 0) < 25:
+        if per.get(g, 0) < 10:
             per[g] = per.get(g, 0) + 1
             sel.append((g, rel, t))
 
